@@ -278,10 +278,14 @@ def _rsplit(it, a, k, n):
     sep = _other(it, s, sep, n)
     ms = concrete_int(as_int(it.need(maxsplit)))
     if ms == 1:
-        i = z3.LastIndexOf(s.z, sep.z)
-        if it.branch(i >= 0, "rsplit1"):
-            return VList([VStr(z3.SubString(s.z, 0, i), s.kind),
-                          VStr(z3.SubString(s.z, i + z3.Length(sep.z), z3.Length(s.z)), s.kind)])
+        # s.rsplit(sep, 1): if sep occurs, s == head + sep + tail with no sep in tail (unique decomposition;
+        # stated with fresh strings instead of last_indexof, which neither solver handles well)
+        if it.branch(z3.Contains(s.z, sep.z), "rsplit1"):
+            head = z3.String(it.ctx.fresh_name("rsplit_h"))
+            tail = z3.String(it.ctx.fresh_name("rsplit_t"))
+            it.ctx.assume(s.z == z3.Concat(head, sep.z, tail), "rsplit(sep,1):decomposition")
+            it.ctx.assume(z3.Not(z3.Contains(tail, sep.z)), "rsplit(sep,1):no-sep-in-tail")
+            return VList([VStr(head, s.kind), VStr(tail, s.kind)])
         return VList([s])
     raise Unsupported("rsplit with maxsplit != 1")
 
